@@ -116,8 +116,7 @@ impl<T: Qcow2IoOps> Qcow2Dev<T> {
         let mut new_refblock = RefBlock::new(info.refcount_order(), rb_size, None);
 
         // the first cluster the old table can't cover, nothing is there
-        let refblock_offset =
-            (old_rt_entries as u64) << (info.rb_index_shift + info.cluster_shift);
+        let refblock_offset = (old_rt_entries as u64) << (info.rb_index_shift + info.cluster_shift);
         new_refblock.set_offset(Some(refblock_offset));
         let rt_offset = refblock_offset + info.cluster_size() as u64;
 
@@ -129,11 +128,8 @@ impl<T: Qcow2IoOps> Qcow2Dev<T> {
         }
 
         // the table as it is on disk now
-        let mut disk_rt = RefTable::new(
-            Some(rt_offset),
-            grown_rt.byte_size(),
-            info.block_size_shift,
-        );
+        let mut disk_rt =
+            RefTable::new(Some(rt_offset), grown_rt.byte_size(), info.block_size_shift);
         {
             let len = reftable.byte_size();
             let buf = unsafe { std::slice::from_raw_parts_mut(disk_rt.as_mut_ptr(), len) };
